@@ -145,6 +145,21 @@ def run_verus_unit(unit, repo, work, tier='quick', seed=0, extra_args=None, rlim
                 best = (name, a, b)
         return best[0] if best else '?'
 
+    def clause_tags(line):
+        """property tags of a contract clause: the nearest marker comment `// ---- C01 / C06: ...` above it inside the same contract"""
+        i = line - 1
+        while 0 <= i < len(lines):
+            t = lines[i].strip()
+            mk = re.match(r'//\s*----\s*([^:]*):', t)
+            if mk and re.search(r'\bC\d\d\b', mk.group(1)):
+                return re.findall(r'\bC\d\d\b', mk.group(1))
+            if i != line - 1 and (re.match(r'(requires|ensures)\b', t) or re.match(r'(pub\s+)?(proof\s+|spec\s+)?fn\b', t)):
+                return None
+            if i == line - 1 and re.match(r'(requires|ensures)\b', t):
+                return None
+            i -= 1
+        return None
+
     diags = []
     for l in p.stderr.split('\n'):
         l = l.strip()
@@ -178,6 +193,8 @@ def run_verus_unit(unit, repo, work, tier='quick', seed=0, extra_args=None, rlim
             'related': [{'gen_line': s['line_start'], 'label': s.get('label'), 'text': lines[s['line_start'] - 1].strip()[:200],
                          'origin': linemap[s['line_start'] - 1] if s['line_start'] <= len(linemap) else None} for s in sec],
         }
+        if msg.startswith('postcondition not satisfied') and line:
+            item['tags'] = clause_tags(line)
         if RESOURCE_RE.search(msg):
             res['undecided'].append('resource limit in %s: %s' % (fn, msg))
         elif lvl == 'error' and PROOF_FAIL_RE.search(msg):
